@@ -161,7 +161,7 @@ for clsA, kwA, clsB, kwB in job['scenarios']:
         for i, (f, ln) in enumerate(sa['lines']):
             if any(f == rf and a <= ln <= b for rf, a, b in job.get('ranges', [])):
                 seen_ln[(f, ln)] = seen_ln.get((f, ln), 0) + 1
-                if seen_ln[(f, ln)] <= 3:
+                if seen_ln[(f, ln)] <= job.get('must_occurrences', 3):
                     must.append(i)
         hot = [i for i, (f, _) in enumerate(sa['lines']) if f.startswith('xsd/') and i not in set(must)]
         rest = [i for i in pts if i not in set(hot)]
